@@ -367,6 +367,16 @@ class Gen:
                 fields.append(rng.choice(['idx', 'name']))
         npos = sum(1 for f in fields if f in ('pos', 'idx'))
         args = [self.value(nested_ok) for _ in range(npos)]
+        for i in range(npos):
+            # outside an expression a minus sign may precede a number or a numeric macro: printf values accept it
+            if rng.random() < 0.12:
+                if rng.random() < 0.3:
+                    args[i] = {'src': '-mac', 'form': 'negated-macro', 'expect': -42, 'pre': []}
+                else:
+                    v = rng.choice([self.rand_int(), self.rand_float()])
+                    src = '-' + (repr(v) if 'e' not in repr(v) else '0.001')
+                    args[i] = {'src': src, 'form': 'negative-literal', 'expect': -float(src[1:]) if '.' in src else -int(src[1:]), 'pre': []}
+                self.count('value_forms', args[i]['form'])
         names_avail = sorted(self.regs) + sorted(self.vars)
         text = self.literal_chunk()
         names = []
